@@ -36,10 +36,11 @@ def sweep(ctx, n):
     for i in range(n):
         nps = np.random.default_rng(rng.randrange(2**31))
         cls = CLASSES[i % len(CLASSES)]
-        src = make(cls, nps)
-        pos, ori = nps.uniform(-1, 1, 3), R.random(rng=nps)
+        lsc = [1.0, 1e-9, 1.0, 1e4, 1e-6, 1.0, 1e-3][(i // len(CLASSES)) % 7]  # the same configuration in very small / large length units, every class at every scale
+        src = make(cls, nps, scale=lsc)
+        pos, ori = nps.uniform(-1, 1, 3) * lsc, R.random(rng=nps)
         src.position, src.orientation = pos, ori
-        obs = far_points(nps, 4, lo=4, hi=8)
+        obs = far_points(nps, 4, scale=lsc, lo=4, hi=8)
         sens = magpy.Sensor(pixel=obs)
         X = rng.choice("BHJM")
         get = getattr(magpy, "get" + X)
@@ -96,8 +97,8 @@ def sweep(ctx, n):
                 kind = rng.choice(["mirrored", "rotating", "translating"])
                 oris = R.from_rotvec([ax * a * (-1) ** j for j in range(mlen)]) if kind == "mirrored" else (
                     R.random(mlen, rng=nps) if kind == "rotating" else R.from_quat(np.tile(R.random(rng=nps).as_quat(), (mlen, 1))))
-                ppos = far_points(nps, mlen, lo=5, hi=8)
-                pix = nps.uniform(-0.3, 0.3, (2, 3))
+                ppos = far_points(nps, mlen, scale=lsc, lo=5, hi=8)
+                pix = nps.uniform(-0.3, 0.3, (2, 3)) * lsc
                 moving = magpy.Sensor(position=ppos, orientation=oris, pixel=pix)
                 full = get(src, moving, squeeze=False)[0, :, 0]
                 forms[f"sensor-path:{kind}"] = forms.get(f"sensor-path:{kind}", 0) + 1
@@ -108,6 +109,16 @@ def sweep(ctx, n):
                         bad(f"interface:{cls}:sensor-path:{kind}", f"sensor with a {kind} path differs at step {j} from a static sensor at that pose", {"class": cls, "field": X, "kind": kind})
                         break
             # core function in the source frame
+            if cls == "Polyline":
+                # core function per segment, summed (every top-level interface goes through the same wrapper; the core does not)
+                local = ori.inv().apply(obs - pos)
+                v = np.asarray(src.vertices, float)
+                raw = sum(magpy.core.current_polyline_Hfield(observers=local, segments_start=np.tile(a_, (len(local), 1)), segments_end=np.tile(b_, (len(local), 1)),
+                                                             currents=np.full(len(local), src.current)) for a_, b_ in zip(v[:-1], v[1:]) if not np.array_equal(a_, b_))
+                want = magpy.getH(src, obs)
+                forms["core"] = forms.get("core", 0) + 1
+                if not np.allclose(ori.apply(raw), want, rtol=1e-8, atol=1e-9 * (float(np.max(np.abs(ori.apply(raw)))) + 1e-300)):
+                    bad("interface:Polyline:core", f"sum of core.current_polyline_Hfield over the segments differs from get{X}", {"class": cls, "field": X, "length_scale": lsc})
             if cls in CORE and X in "BH":
                 fname, fld, build = CORE[cls]
                 local = ori.inv().apply(obs - pos)
@@ -124,8 +135,8 @@ def sweep(ctx, n):
                     bad(f"interface:{cls}:core", f"core.{fname} differs from get{X}", {"class": cls, "field": X})
             # dataframe order
             if i % 4 == 0:
-                s2 = make(CLASSES[(i + 3) % len(CLASSES)], nps, path=2)
-                k2 = magpy.Sensor(pixel=obs[:2], position=(0.1, 0.2, 0.3))
+                s2 = make(CLASSES[(i + 3) % len(CLASSES)], nps, scale=lsc, path=2)
+                k2 = magpy.Sensor(pixel=obs[:2], position=np.array((0.1, 0.2, 0.3)) * lsc)
                 arr = get([src, s2], [sens.copy(pixel=obs[:2]), k2], squeeze=False)
                 df = get([src, s2], [sens.copy(pixel=obs[:2]), k2], output="dataframe")
                 cols = [X + c for c in "xyz"]
